@@ -9,6 +9,7 @@ from harness import impl_dispatch as D
 
 KW = {"required": [], "optional": [], "varkw": True, "uid": False}
 KW_UID = {"required": [], "optional": [], "varkw": True, "uid": True}
+KW_UID_KWONLY = {"required": [], "optional": [], "varkw": True, "uid": True, "uid_kwonly": True}
 
 OCPP_ERRORS = ["NotImplementedError", "NotSupportedError", "InternalError", "ProtocolError", "SecurityError",
                "FormatViolationError", "FormationViolationError", "PropertyConstraintViolationError",
@@ -93,8 +94,8 @@ class Gen:
                 others = [self.route(a2, ("ret", {})) for a2 in rng.sample(acts, 2) if a2 != action]
                 # 1. valid request, valid result, each hook variant once over the run
                 hv = rng.choice(hook_variants(rng))
-                sig = rng.choice([KW, KW_UID])
-                asig = rng.choice([KW, KW_UID])
+                sig = rng.choice([KW, KW_UID, KW_UID_KWONLY])
+                asig = rng.choice([KW, KW_UID, KW_UID_KWONLY])
                 req = rng.choice(valid_reqs)[1]
                 cases.append(("ok", version, others + [self.route(action, ("ret", snake(rng.choice(valid_resps)[1])), sig=sig,
                                                                  is_async=rng.random() < 0.5, after=hv, after_sig=asig,
@@ -105,6 +106,17 @@ class Gen:
                     cases.append(("send-fails", version, [self.route(action, ("ret", snake(vr)), after=("ret",),
                                                                      after_async=rng.random() < 0.5)],
                                   self.frame(uid, action, req), {"send_ok": False}))
+                # 1c. another endpoint class of the process uses the SAME method names in the opposite roles
+                #     (its on-handler is called like our after-hook and vice versa), defined before or after ours
+                if rng.random() < 0.5:
+                    mine = self.route(action, ("ret", snake(vr)), after=("ret",))
+                    mine.pop("after_first", None)
+                    mine["on"]["name"], mine["after"]["name"] = "shared_a", "shared_b"
+                    other_action = rng.choice([a for a in acts if a != action])
+                    theirs = {"action": other_action, "skip": False, "defined_after": rng.random() < 0.5,
+                              "on": {"name": "shared_b", "sig": KW, "async": False, "out": ("ret", {})},
+                              "after": {"name": "shared_a", "sig": KW, "async": False, "out": ("ret",)}}
+                    cases.append(("ok-role-clash", version, [mine], self.frame(uid, action, req), {"prelude": [theirs]}))
                 # 2. valid request, explicit-parameter handler
                 if isinstance(req, dict):
                     sk = list(snake(req).keys())
@@ -135,7 +147,7 @@ class Gen:
                                                                           rng.choice([None, {"k": [1, {"z": None}]}])),
                                                                  after=("ret",), is_async=rng.random() < 0.5)],
                               self.frame(uid, action, req)))
-                cases.append(("raise-other", version, [self.route(action, ("other", rng.choice(["RuntimeError", "ValueError", "KeyError", "SecretError"]),
+                cases.append(("raise-other", version, [self.route(action, ("other", rng.choice(["RuntimeError", "ValueError", "KeyError", "SecretError", "TypeError", "TypeError"]),
                                                                            "secret-%d" % rng.randrange(10 ** 6)),
                                                                   after=("ret",), is_async=rng.random() < 0.5)],
                               self.frame(uid, action, req)))
@@ -249,7 +261,7 @@ def run_cases(rep, cases, tag, prop_id, oracle, async_modes=(False,), shard_size
             continue
         for am in async_modes:
             send_ok = info.get("send_ok", True)
-            obs = D.observe_frame(version, routes, raw, async_validation=am, send_ok=send_ok)
+            obs = D.observe_frame(version, routes, raw, async_validation=am, send_ok=send_ok, prelude=info.get("prelude"))
             rep.count(json.dumps([version, repr(routes), repr(raw)], default=repr))
             rep.add("stratum:" + kind)
             replay = {"kind": "dispatch", "stratum": kind, "version": version, "routes": routes, "info": info,
